@@ -21,7 +21,7 @@ from dsim import refmodel as R
 ID = 'C15'
 LEVEL = 'exploration'
 CLASSES = [('spelled', 6), ('bom_family', 4)]
-TIERS = {'quick': {'runs': 6000}}
+TIERS = {'quick': {}}
 RULE = ('seeded writer histories in which every encoding argument is a '
         'randomly spelled name of one of 1-3 codecs drawn from the computed '
         'catalogue (~98 stateless text codecs, ~1390 spellings; class '
